@@ -1038,8 +1038,9 @@ def run(tier):
             report.inconclusive.append("variant %s did not build: %s" % (must, report.builds.get(must)))
     mult = 1 if tier == "quick" else THOROUGH_SHARDS
     jobs = []
+    live = {}
     for vname, exe in exes.items():
-        liveness(exe, vname, report)
+        live[vname] = "asan+canary+cpu-alarm fired on deliberate driver faults" if liveness(exe, vname, report) else "FAILED"
         for fam, _, nsh, _q in FAMILIES:
             nsh *= mult
             for sh in range(nsh):
@@ -1064,6 +1065,7 @@ def run(tier):
             outcomes.setdefault(fn, {})[o] = report.extra.pop(k)
     report.extra["cases_per_function"] = per_fn
     report.extra["outcomes_per_function"] = outcomes
+    report.extra["monitor_liveness"] = live
     missing = [f for f in REQUIRED_FUNCS if per_fn.get(f, 0) == 0]
     if missing:
         report.inconclusive.append("anchored functions never executed: %s" % ", ".join(missing))
